@@ -127,40 +127,6 @@ package datamover
 //@   ensures result == c18Port(m, "Outside")
 //@   assigns nothing
 
-// ---- reset: the in-flight transfer and the data buffer are wiped, agent enabled, then ONE ack ----
-// (endInflightTasks is under contract in the package's C03 file: it only appends to the ghost log c03EndN/c03EndSeq)
-//@ pred c18OthersKept(m) = forall p int :: p != c18Ctl(m) && p != c18P(m, "Top") && p != c18P(m, "Inside") && p != c18P(m, "Outside") ==> inTyp[p] == old(inTyp)[p] && inVal[p] == old(inVal)[p] && retrCnt[p] == old(retrCnt)[p]
-//@ pred c18CtlInKept(m) = inTyp[c18Ctl(m)] == old(inTyp)[c18Ctl(m)] && inVal[c18Ctl(m)] == old(inVal)[c18Ctl(m)] && retrCnt[c18Ctl(m)] == old(retrCnt)[c18Ctl(m)]
-//@ pred c18ResetDone(m) = m.comp.State.ControlState == memcontrolprotocol.StateEnabled && !m.comp.State.CurrentTransaction.Active && len(m.comp.State.CurrentTransaction.PendingRead) == 0 && len(m.comp.State.CurrentTransaction.PendingWrite) == 0 && len(m.comp.State.Buffer.Chunks) == 0 && m.comp.State.Buffer.Offset == 0 && m.comp.State.CurrentCmdID == 0 && m.comp.State.CurrentCmdSrc == ""
-//@ fn (*ctrlMiddleware).handleReset
-//@   property C18
-//@   requires c18WF(m) && idGenOK() && inTyp[c18Ctl(m)] != 0
-//@   label C18.datamover.reset.progress
-//@   ensures result <==> old(canSend[c18Ctl(m)])
-//@   label C18.datamover.reset.once
-//@   ensures result ==> c18OneSent(c18Ctl(m)) && retrCnt[c18Ctl(m)] == old(retrCnt)[c18Ctl(m)] + 1 && c18OthersKept(m)
-//@   label C18.datamover.reset.blocked
-//@   ensures !result ==> c18NoSend() && c18NoRetr() && c18Kept(m)
-//@   label C18.datamover.reset.echo
-//@   ensures result ==> c18Answers(m, memcontrolprotocol.CmdReset, req.ID, req.Src, true, "")
-//@   label C18.datamover.reset.state
-//@   ensures result ==> c18ResetDone(m)
-//@   label C18.datamover.reset.idgen
-//@   ensures idGenOK()
-//@   assigns m.comp.State.ControlState, m.comp.State.CurrentCmdID, m.comp.State.CurrentCmdSrc, m.comp.State.CurrentTransaction, m.comp.State.Buffer, c03EndN, c03EndSeq, canSend, sendCnt, sentTyp, sentVal, inTyp, inVal, retrCnt, issued, key("G|github.com/sarchlab/akita/v5/timing.idGenerator|"), key("G|github.com/sarchlab/akita/v5/timing.idGeneratorInstantiated|"), key("O|timing.sequentialIDGenerator|nextID"), key("O|timing.parallelIDGenerator|nextID")
-//@   loop 0: invariant c18WF(m) && idGenOK()
-//@   loop 0: invariant c18CtlInKept(m) && c18OthersKept(m)
-//@   loop 0: invariant sendCnt == old(sendCnt) && sentTyp == old(sentTyp) && sentVal == old(sentVal) && canSend == old(canSend)
-//@   loop 0: invariant c18ResetDone(m)
-//@   loop 1: invariant c18WF(m) && idGenOK()
-//@   loop 1: invariant c18CtlInKept(m) && c18OthersKept(m)
-//@   loop 1: invariant sendCnt == old(sendCnt) && sentTyp == old(sentTyp) && sentVal == old(sentVal) && canSend == old(canSend)
-//@   loop 1: invariant c18ResetDone(m)
-//@   loop 2: invariant c18WF(m) && idGenOK()
-//@   loop 2: invariant c18CtlInKept(m) && c18OthersKept(m)
-//@   loop 2: invariant sendCnt == old(sendCnt) && sentTyp == old(sentTyp) && sentVal == old(sentVal) && canSend == old(canSend)
-//@   loop 2: invariant c18ResetDone(m)
-
 // ---- deferred drain ack: only when quiescent (c18Quiet) and the port can send; lands in Paused ----
 //@ fn (*ctrlMiddleware).completePendingDrain
 //@   property C18
@@ -179,55 +145,6 @@ package datamover
 //@   ensures idGenOK()
 //@   assigns m.comp.State.ControlState, m.comp.State.CurrentCmdID, m.comp.State.CurrentCmdSrc, canSend, sendCnt, sentTyp, sentVal, issued, key("G|github.com/sarchlab/akita/v5/timing.idGenerator|"), key("G|github.com/sarchlab/akita/v5/timing.idGeneratorInstantiated|"), key("O|timing.sequentialIDGenerator|nextID"), key("O|timing.parallelIDGenerator|nextID")
 
-// ---- one control step: the message at the head of the Control port ----
-//@ func c18Hd(m) = old(c18Head(c18Ctl(m)))
-//@ func c18HdCmd(m) = c18Req(c18Hd(m)).Command
-//@ pred c18HdSync(m) = c18IsReq(c18Hd(m)) && c18HdCmd(m) != memcontrolprotocol.CmdDrain
-//@ fn (*ctrlMiddleware).handleIncoming
-//@   property C18
-//@   requires c18WF(m) && idGenOK()
-//@   label C18.datamover.idle
-//@   ensures old(inTyp)[c18Ctl(m)] == 0 ==> !result && c18NoSend() && c18NoRetr() && c18Kept(m)
-//@   label C18.datamover.nonreq
-//@   ensures old(inTyp)[c18Ctl(m)] != 0 && !c18IsReq(c18Hd(m)) ==> result && c18NoSend() && c18OneRetr(c18Ctl(m)) && c18Kept(m)
-//@   label C18.datamover.once
-//@   ensures c18HdSync(m) ==> (result <==> old(canSend[c18Ctl(m)])) && (result ==> c18OneSent(c18Ctl(m)) && retrCnt[c18Ctl(m)] == old(retrCnt)[c18Ctl(m)] + 1)
-//@   label C18.datamover.once.blocked
-//@   ensures c18HdSync(m) && !result ==> c18NoSend() && c18NoRetr() && c18Kept(m)
-//@   label C18.datamover.sendframe
-//@   ensures c18NoSend() || c18OneSent(c18Ctl(m))
-//@   label C18.datamover.echo
-//@   ensures c18HdSync(m) && result ==> c18IsRsp(c18Last(c18Ctl(m))) && c18Rsp(c18Ctl(m)).Command == c18HdCmd(m) && c18Rsp(c18Ctl(m)).RspTo == c18Req(c18Hd(m)).ID && c18Rsp(c18Ctl(m)).Dst == c18Req(c18Hd(m)).Src
-//@   label C18.datamover.unsupported
-//@   ensures c18HdSync(m) && result && !c18Supported(c18HdCmd(m)) ==> !c18Rsp(c18Ctl(m)).Success && c18Rsp(c18Ctl(m)).Error == memcontrolprotocol.ErrUnsupported && c18Kept(m)
-//@   label C18.datamover.supported
-//@   ensures c18HdSync(m) && result && c18Supported(c18HdCmd(m)) ==> c18Rsp(c18Ctl(m)).Success && c18Rsp(c18Ctl(m)).Error == ""
-//@   label C18.datamover.pause
-//@   ensures c18HdSync(m) && result && c18HdCmd(m) == memcontrolprotocol.CmdPause ==> m.comp.State.ControlState == memcontrolprotocol.StatePaused && unchanged(m.comp.State.CurrentTransaction.Active) && unchanged(m.comp.State.CurrentTransaction.ReqID)
-//@   label C18.datamover.enable
-//@   ensures c18HdSync(m) && result && c18HdCmd(m) == memcontrolprotocol.CmdEnable ==> m.comp.State.ControlState == memcontrolprotocol.StateEnabled && unchanged(m.comp.State.CurrentTransaction.Active) && unchanged(m.comp.State.CurrentTransaction.ReqID)
-//@   label C18.datamover.reset
-//@   ensures c18HdSync(m) && result && c18HdCmd(m) == memcontrolprotocol.CmdReset ==> c18ResetDone(m)
-//@   label C18.datamover.drain.accepted
-//@   ensures c18IsReq(c18Hd(m)) && c18HdCmd(m) == memcontrolprotocol.CmdDrain ==> result && c18NoSend() && c18OneRetr(c18Ctl(m)) && m.comp.State.ControlState == memcontrolprotocol.StateDraining && m.comp.State.CurrentCmdID == c18Req(c18Hd(m)).ID && m.comp.State.CurrentCmdSrc == c18Req(c18Hd(m)).Src && unchanged(m.comp.State.CurrentTransaction.Active) && unchanged(m.comp.State.CurrentTransaction.ReqID)
-//@   label C18.datamover.step.idgen
-//@   ensures idGenOK()
-//@   assigns m.comp.State.ControlState, m.comp.State.CurrentCmdID, m.comp.State.CurrentCmdSrc, m.comp.State.CurrentTransaction, m.comp.State.Buffer, c03EndN, c03EndSeq, canSend, sendCnt, sentTyp, sentVal, inTyp, inVal, retrCnt, issued, key("G|github.com/sarchlab/akita/v5/timing.idGenerator|"), key("G|github.com/sarchlab/akita/v5/timing.idGeneratorInstantiated|"), key("O|timing.sequentialIDGenerator|nextID"), key("O|timing.parallelIDGenerator|nextID")
-
-// ---- one tick: commands are taken one at a time; while a drain is pending no request is retrieved ----
-//@ pred c18DrainPending(m) = m.comp.State.ControlState == memcontrolprotocol.StateDraining && !(c18Quiet(m) && canSend[c18Ctl(m)])
-//@ pred c18DrainDue(m) = m.comp.State.ControlState == memcontrolprotocol.StateDraining && c18Quiet(m) && canSend[c18Ctl(m)]
-//@ fn (*ctrlMiddleware).Tick
-//@   property C18
-//@   requires c18WF(m) && idGenOK()
-//@   label C18.datamover.serial
-//@   ensures old(c18DrainPending(m)) ==> !result && c18NoSend() && c18NoRetr() && c18Kept(m)
-//@   label C18.datamover.serial.one
-//@   ensures old(retrCnt)[c18Ctl(m)] <= retrCnt[c18Ctl(m)] && retrCnt[c18Ctl(m)] <= old(retrCnt)[c18Ctl(m)] + 1
-//@   label C18.datamover.serial.ackfirst
-//@   ensures old(c18DrainDue(m)) ==> sendCnt[c18Ctl(m)] > old(sendCnt)[c18Ctl(m)] && c18IsRsp(c18SentAt(c18Ctl(m), old(sendCnt)[c18Ctl(m)])) && as(c18SentAt(c18Ctl(m), old(sendCnt)[c18Ctl(m)]), "memcontrolprotocol.Rsp").Command == memcontrolprotocol.CmdDrain && as(c18SentAt(c18Ctl(m), old(sendCnt)[c18Ctl(m)]), "memcontrolprotocol.Rsp").RspTo == old(m.comp.State.CurrentCmdID)
-//@   label C18.datamover.serial.sends
-//@   ensures old(sendCnt)[c18Ctl(m)] <= sendCnt[c18Ctl(m)] && sendCnt[c18Ctl(m)] <= old(sendCnt)[c18Ctl(m)] + (old(c18DrainDue(m)) ? 2 : 1)
-//@   label C18.datamover.tick.idgen
-//@   ensures idGenOK()
-//@   assigns m.comp.State.ControlState, m.comp.State.CurrentCmdID, m.comp.State.CurrentCmdSrc, m.comp.State.CurrentTransaction, m.comp.State.Buffer, c03EndN, c03EndSeq, canSend, sendCnt, sentTyp, sentVal, inTyp, inVal, retrCnt, issued, key("G|github.com/sarchlab/akita/v5/timing.idGenerator|"), key("G|github.com/sarchlab/akita/v5/timing.idGeneratorInstantiated|"), key("O|timing.sequentialIDGenerator|nextID"), key("O|timing.parallelIDGenerator|nextID")
+// NOT under contract here (blocked): handleReset, handleIncoming, Tick. handleReset calls endInflightTasks, whose contract lives in the
+// package's C03 file; at call sites its loop ghost `posR = SortedKeys_pos` gets sort Int and the engine stops with
+// "spec error: cannot index main.Sc". The generated contracts for the three functions are kept out of the tree until that is fixed.
